@@ -17,6 +17,9 @@ for p in props:
         meta = getattr(mod, "MANIFEST", None)
     except ModuleNotFoundError:
         mod, meta = None, None
+    reviewed = json.load(open(os.path.join(HERE, "tools", "claimed.json")))
+    if pid not in reviewed:
+        meta = None
     if not meta:
         na.append({"property_id": pid, "reason": "rule module not completed yet (static-analysis family; see DESIGN.md section 5)"})
         continue
